@@ -116,6 +116,19 @@ func c12E2ECase(c *vf.Ctx, i int, mu *sync.Mutex) {
 		if lc.remote {
 			args = append(args, "--jobmode=fake_remote", fmt.Sprintf("--maxjobs=%d", lc.maxjobs), "--jobinterval=1")
 		}
+		if slowJoin && i%12 == 2 {
+			// cluster mode, mrp killed after its fifth submission and restarted at once: the
+			// jobs already submitted keep running, and the restarted mrp has to count them
+			// against --maxjobs when it re-attaches
+			r0 := cs.Run(vrun.RunOpts{Args: args, Seed: seed, Timeout: 150 * time.Second, Crash: "remote:send#5:KILL"})
+			if r0.TimedOut {
+				cs.KillAll()
+			}
+			os.Remove(filepath.Join(cs.PsDir, "_lock"))
+			mu.Lock()
+			c.Count("e2e_cluster_mode_restarts", 1)
+			mu.Unlock()
+		}
 		r := cs.Run(vrun.RunOpts{Args: args, Seed: seed, Timeout: 150 * time.Second, Race: i%3 == 0,
 			Delays: "local:*=20@0.5;remote:*=20@0.5"})
 		mu.Lock()
